@@ -4,7 +4,7 @@
    check_rcase evaluated by the kernel). *)
 From Coq Require Import List Bool NArith ZArith String.
 Import ListNotations.
-From Molli Require Import Model.Job Proofs.Job.
+From Molli Require Import Model.Job Proofs.Job Model.JobCtor Proofs.JobCtor.
 Local Open Scope string_scope.
 
 (* ================================================================== (i) binding *)
@@ -117,6 +117,128 @@ Example C17_binding_nonvacuous :
   use_after no_settings evs 2 = Some (mk_bound (Some "zsh") 2 1000 [("K", "cls")])
   /\ use_after no_settings evs 1 = Some (mk_bound (Some "sh") 4 1000 [("A", "1")]).
 Proof. split; reflexivity. Qed.
+
+(* ================================================================== (i') the driver constructor in front of the binding *)
+(* `CNew i k args` is d_i = Class_k(args) run through DriverBase.__init__ (Model/JobCtor.v): the name the instance
+   was given (else the class's default_executable) is looked up in an explicit world (PATH directories in order, the
+   executable files) when check_exe is on, refused when unreachable, replaced by its location when find is on.
+   The model with constructor calls is the binding model run on the elaborated history, so everything above applies. *)
+Theorem C17_ctor_is_binding_model : forall w cl evs st,
+  cs_b (fst (crun LFresh w cl st evs)) = fst (brun MCopy (cs_b st) (elab w cl evs))
+  /\ b_obs (snd (crun LFresh w cl st evs)) = snd (brun MCopy (cs_b st) (elab w cl evs))
+  /\ cs_memo (fst (crun LFresh w cl st evs)) = cs_memo st.
+Proof. exact crun_fresh_elab. Qed.
+Print Assumptions C17_ctor_is_binding_model.
+
+(* Whatever drivers were constructed, refused, reassigned, used or had their jobs kept before (evs1) and afterwards
+   (evs2: anything but re-creating / reassigning d_i itself) -- instances of the SAME class or of other classes, with
+   any executables, reachable or not, in any order -- the job bound through d_i is the Job's declared settings
+   resolved against what the constructor made of d_i's OWN arguments ... *)
+Theorem C17_ctor_binding_value : forall w cl decl evs1 i k a dflt cattrs s evs2,
+  nget k cl = Some (dflt, cattrs) -> construct w dflt a = COk s ->
+  forallb (fun ev => negb (retouches i ev)) evs2 = true ->
+  use_after decl (elab w cl (evs1 ++ CNew i k a :: evs2)) i = Some (bind decl cattrs s).
+Proof. exact ctor_use_value. Qed.
+Print Assumptions C17_ctor_binding_value.
+
+(* ... i.e. what it is in the history that consists of this one constructor call ... *)
+Theorem C17_ctor_binding_independent : forall w cl decl evs1 i k a dflt cattrs s evs2,
+  nget k cl = Some (dflt, cattrs) -> construct w dflt a = COk s ->
+  forallb (fun ev => negb (retouches i ev)) evs2 = true ->
+  use_after decl (elab w cl (evs1 ++ CNew i k a :: evs2)) i = use_after decl (elab w cl [CNew i k a]) i.
+Proof. exact ctor_use_independent. Qed.
+Print Assumptions C17_ctor_binding_independent.
+
+(* ... also for a bound job obtained through d_i, kept in a variable and used later. *)
+Theorem C17_ctor_held_value : forall w cl decl evs1 i k a dflt cattrs s evs2 h evs3,
+  nget k cl = Some (dflt, cattrs) -> construct w dflt a = COk s ->
+  forallb (fun ev => negb (retouches i ev)) evs2 = true ->
+  forallb (fun ev => negb (obtains h ev)) evs3 = true ->
+  held_after decl (elab w cl (evs1 ++ CNew i k a :: evs2) ++ BGet i h :: evs3) h = Some (bind decl cattrs s).
+Proof. exact ctor_held_value. Qed.
+Print Assumptions C17_ctor_held_value.
+
+(* What the constructor makes of an instance's arguments: its own processor count (1 when omitted), memory and
+   environment; its own name (or the class default) -- as given when the lookup is off, as located in the world (or
+   as given, find=False) when it is on. *)
+Theorem C17_construct_reflects_args : forall w dflt a s, construct w dflt a = COk s ->
+  s_nprocs s = Some (match a_nprocs a with Some n => n | None => 1%N end) /\ s_mem s = a_mem a /\ s_env s = a_env a
+  /\ (a_check a = false -> s_exe s = wanted dflt a)
+  /\ (a_check a = true -> exists e p, wanted dflt a = Some e /\ which w e = Some p
+                                     /\ s_exe s = Some (if a_find a then p else e)).
+Proof. exact construct_reflects_args. Qed.
+Print Assumptions C17_construct_reflects_args.
+
+(* With the check on, an instance is refused exactly when ITS executable is unreachable; a refused call leaves no trace. *)
+Theorem C17_construct_refused_iff : forall w dflt a e, a_check a = true -> wanted dflt a = Some e ->
+  (construct w dflt a = CRefused <-> which w e = None).
+Proof. exact construct_refused_iff. Qed.
+Print Assumptions C17_construct_refused_iff.
+
+Theorem C17_ctor_refused_no_trace : forall w cl evs1 i k a dflt cattrs evs2,
+  nget k cl = Some (dflt, cattrs) -> construct w dflt a = CRefused ->
+  elab w cl (evs1 ++ CNew i k a :: evs2) = elab w cl (evs1 ++ evs2).
+Proof. exact ctor_refused_no_trace. Qed.
+Print Assumptions C17_ctor_refused_no_trace.
+
+(* The lookup: a name with a directory part is tested as it stands; a bare name resolves to the FIRST directory of
+   PATH holding an executable of that name; whatever is located is an executable file. *)
+Theorem C17_which_path : forall w n, has_slash n = true -> which w n = if is_exe w n then Some n else None.
+Proof. exact which_abs. Qed.
+Print Assumptions C17_which_path.
+
+Theorem C17_which_bare : forall w n p, has_slash n = false -> which w n = Some p ->
+  exists l1 d l2, w_path w = (l1 ++ d :: l2)%list /\ p = join d n /\ is_exe w p = true
+                  /\ forall d', In d' l1 -> is_exe w (join d' n) = false.
+Proof. exact which_bare. Qed.
+Print Assumptions C17_which_bare.
+
+Theorem C17_which_bare_none : forall w n, has_slash n = false -> which w n = None ->
+  forall d, In d (w_path w) -> is_exe w (join d n) = false.
+Proof. exact which_bare_none. Qed.
+Print Assumptions C17_which_bare_none.
+
+(* The variant of which() that memoises the lookup per driver CLASS breaks the property: the second instance of the
+   class runs the first one's program and a third one with an unreachable executable is let through.  Histories whose
+   constructor calls all switch the lookup off (check_exe=False) cannot tell it from the code -- so they do not test it. *)
+Lemma C17_ctor_memo_refuted :
+  let cl := [(0%N, (None, no_settings))] in
+  snd (crun LMemoClass memo_world cl (cinit no_settings) memo_witness)
+  = [ONew (COk (mk_settings (Some "/W/d1/tool") (Some 4%N) None None));
+     ONew (COk (mk_settings (Some "/W/d1/tool") (Some 2%N) None None));
+     ONew (COk (mk_settings (Some "/W/d1/tool") (Some 1%N) None None));
+     OB (Some (mk_bound (Some "/W/d1/tool") 2 1000 [])); OB (Some (mk_bound (Some "/W/d1/tool") 4 1000 []))]
+  /\ snd (crun LFresh memo_world cl (cinit no_settings) memo_witness)
+  = [ONew (COk (mk_settings (Some "/W/d1/tool") (Some 4%N) None None));
+     ONew (COk (mk_settings (Some "/W/d2/beta") (Some 2%N) None None));
+     ONew CRefused;
+     OB (Some (mk_bound (Some "/W/d2/beta") 2 1000 [])); OB (Some (mk_bound (Some "/W/d1/tool") 4 1000 []))].
+Proof. exact memo_refuted. Qed.
+
+Lemma C17_ctor_memo_invisible_without_lookup : forall w cl evs st,
+  forallb lookup_off evs = true -> crun LMemoClass w cl st evs = crun LFresh w cl st evs.
+Proof. exact memo_invisible_without_lookup. Qed.
+
+Example C17_ctor_nonvacuous :
+  let w := mk_world ["/W/d1"; "/W/d2"] ["/W/d1/tool"; "/W/d2/tool"; "/W/d2/beta"; "/W/d2/deflt"; "/W/d3/tool"] in
+  let cl := [(0%N, (Some "deflt", no_settings)); (1%N, (None, mk_settings None None None (Some [("K", "cls")])))] in
+  let a := mk_cargs (Some "/W/d3/tool") (Some 4%N) None (Some [("A", "1")]) true true in
+  let evs1 := [CNew 0 0 (mk_cargs None None None None true true); CNew 1 0 (mk_cargs (Some "beta") (Some 2%N) None None true true);
+               CNew 3 1 (mk_cargs (Some "gamma") None None None true true); CEv (BUse 1)] in
+  let evs2 := [CNew 4 1 (mk_cargs (Some "tool") None (Some 9%N) None true false); CEv (BUse 0); CEv (BGet 4 0); CEv (BUse 3)] in
+  construct w None a = COk (mk_settings (Some "/W/d3/tool") (Some 4%N) None (Some [("A", "1")]))
+  /\ forallb (fun ev => negb (retouches 2 ev)) evs2 = true
+  /\ use_after no_settings (elab w cl (evs1 ++ CNew 2 1 a :: evs2)) 2
+      = Some (mk_bound (Some "/W/d3/tool") 4 1000 [("K", "cls"); ("A", "1")])
+  /\ snd (crun LFresh w cl (cinit no_settings) (evs1 ++ CNew 2 1 a :: evs2))
+      = [ONew (COk (mk_settings (Some "/W/d2/deflt") (Some 1%N) None None));
+         ONew (COk (mk_settings (Some "/W/d2/beta") (Some 2%N) None None));
+         ONew CRefused; OB (Some (mk_bound (Some "/W/d2/beta") 2 1000 []));
+         ONew (COk (mk_settings (Some "/W/d3/tool") (Some 4%N) None (Some [("A", "1")])));
+         ONew (COk (mk_settings (Some "tool") (Some 1%N) (Some 9%N) None));
+         OB (Some (mk_bound (Some "/W/d2/deflt") 1 1000 []));
+         OB (Some (mk_bound (Some "tool") 1 9 [("K", "cls")])); OB None].
+Proof. cbv zeta. repeat split; reflexivity. Qed.
 
 (* ================================================================== (ii) run_local, for EVERY command oracle *)
 (* Commands run in order, each in the directory its predecessor left (first one: the materialised input files), with the
